@@ -46,7 +46,8 @@ inductive Kind (κ : Type) where
   | dir (c : κ)
   /-- link whose target does not exist; non-strict `Path.resolve()` = `c` -/
   | dangling (c : κ)
-  /-- link cycle (`x -> x`): `is_dir()` is false, `Path.resolve()` raises `RuntimeError` (CPython ≤ 3.12) -/
+  /-- link cycle (`x -> x`): `is_dir()` is false, `Path.resolve()` raises `RuntimeError` (CPython ≤ 3.12) or
+  `OSError`, which `get_files` catches: the name is skipped (71ff38c) -/
   | loop
   deriving DecidableEq, Repr
 
@@ -66,7 +67,6 @@ structure FS (κ : Type) where
 abbrev Path := List String
 
 inductive Err where
-  | runtimeError
   | fuel
   deriving DecidableEq, Repr
 
@@ -98,11 +98,7 @@ is an injective function of `d_path`, so the model keys the dict by `d_path` -/
 def addDiags (hasToml : κ → Bool) (dset : List (κ × String)) (dg : List (κ × String)) : List (κ × String) :=
   dset.foldl (fun dg kd => if hasToml kd.1 then dictInsert kd.1 kd.2 dg else dg) dg
 
-/-- a wanted name in `files` whose `resolve()` raises -/
-def raises (es : List (Entry κ)) : Bool :=
-  es.any fun e => e.wanted && (match e.kind with | .loop => true | _ => false)
-
-/-- the `for name in files:` loop (when nothing raises) -/
+/-- the `for name in files:` loop; a name whose `resolve()` raises (`Kind.loop`) is skipped by the `except` clause -/
 def yields (inJail : κ → Bool) (p : Path) (es : List (Entry κ)) : List (Path × κ) :=
   es.filterMap fun e => match e.kind with
     | .file c => if e.wanted && inJail c then some (p ++ [e.name], c) else none
@@ -131,8 +127,7 @@ def step (fs : FS κ) (p : Path) (c : κ) (st : St κ) : Except Err (List (Path 
     let diags := addDiags fs.hasToml dset st.diags
     let kept := dset.filter fun kd => decide (kd.1 ∉ st.seen) && fs.inJail kd.1 && !fs.hasToml kd.1
     let seen := st.seen ++ (dset.map (·.1)).filter (fun k => decide (k ∉ st.seen))
-    if raises es then .error .runtimeError
-    else .ok (kept.map (fun kd => (p ++ [kd.2], kd.1)),
+    .ok (kept.map (fun kd => (p ++ [kd.2], kd.1)),
               { seen := seen, out := st.out ++ yields fs.inJail p es, diags := diags, scans := st.scans ++ [c] })
 
 def loop (fs : FS κ) : Nat → List (Path × κ) → St κ → Except Err (St κ)
